@@ -227,12 +227,12 @@ theorem scansAs_char (c : Char) (rest : Text) (hd : Delim rest) :
 
 /-! ## numbers -/
 
-theorem numberTail_delim : ∀ (ds rest : Text), (∀ x ∈ ds, isSubsequentNumber x = true) → Delim rest →
-    numberTail (ds ++ rest) = (ds, rest, false) := by
+theorem numberTail_delim : ∀ (ds rest : Text) (m d k : Bool), (∀ x ∈ ds, isSubsequentNumber x = true) →
+    Delim rest → numberTail m d k (ds ++ rest) = (ds, rest, false) := by
   intro ds
   induction ds with
   | nil =>
-    intro rest _ hd
+    intro rest m d k _ hd
     cases rest with
     | nil => rfl
     | cons c cs =>
@@ -240,12 +240,14 @@ theorem numberTail_delim : ∀ (ds rest : Text), (∀ x ∈ ds, isSubsequentNumb
         rcases hd with h | h <;> subst h <;> decide
       have h2 : isSubsequentIdentifier c = false := by
         rcases hd with h | h <;> subst h <;> decide
-      simp [numberTail, h1, h2]
-  | cons d ds ih =>
-    intro rest h hd
-    have hdp : isSubsequentNumber d = true := h d (by simp)
-    simp only [List.cons_append, numberTail, hdp, if_true]
-    rw [ih rest (fun x hx => h x (by simp [hx])) hd]
+      have h3 : (c == '+' || c == '-') = false := by
+        rcases hd with h | h <;> subst h <;> decide
+      simp [numberTail, h1, h2, h3]
+  | cons x ds ih =>
+    intro rest m d k h hd
+    have hdp : isSubsequentNumber x = true := h x (by simp)
+    simp only [List.cons_append, numberTail, hdp, Bool.true_or, if_true]
+    rw [ih rest _ _ _ (fun y hy => h y (by simp [hy])) hd]
 
 /-- the first character of a number token: none of the punctuation arms, not an identifier start -/
 abbrev NumStart (c : Char) : Prop :=
@@ -259,7 +261,7 @@ theorem scansAs_number (c : Char) (ds rest : Text) (hc : NumStart c)
   obtain ⟨h1, h2, h3, h4, h5, h6, h7, h8, h9, h10⟩ := hc
   simp only [scanPiece, h1, h2, h3, h4, h5, h6, h7, h8, beq_iff_eq, Bool.false_eq_true, if_false]
   simp only [scanOther, h9, h10, Bool.false_eq_true, if_false, if_true]
-  rw [numberTail_delim ds rest hds hd]
+  rw [numberTail_delim ds rest _ _ _ hds hd]
   rfl
 
 theorem digitChar_numStart : ∀ d, d < 10 → NumStart (digitChar d) := by decide
@@ -376,32 +378,76 @@ theorem scansAs_ident {s : Text} (h : identShape s = true) (rest : Text) (hd : D
 
 def contChar (x : Char) : Bool := isSubsequentNumber x || (isSubsequentIdentifier x && x != ';')
 
+/-- whether the loop of `scan_number`, entered in state (`m`antissa, `d`igits, mar`k`er), turns the
+token into a symbol while consuming `ds`: some character is neither a subsequent-number character
+nor the sign directly after the exponent marker of a decimal mantissa (fix c1c04ca: `1e-7` stays a
+number, `1+`, `1e--7`, `1ee-7` do not). The state is advanced exactly as in the Rust loop. -/
+def numSymFlag (m d k : Bool) : Text → Bool
+  | [] => false
+  | x :: xs =>
+    (!isSubsequentNumber x && !(k && (x == '+' || x == '-'))) ||
+      numSymFlag (m && (isAsciiDigit x || x == '.')) (d || isAsciiDigit x) (m && d && (x == 'e' || x == 'E')) xs
+
 /-- a digit or sign, then characters that continue a number token or an identifier (except `;`), at
-least one of which does not continue a number -/
+least one of which does not continue a number (`numSymFlag`) -/
 def numSymShape : Text → Bool
   | [] => false
   | c :: ds => (isAsciiDigit c || c == '+' || c == '-') && ds.all contChar &&
-      ds.any (fun x => !isSubsequentNumber x)
+      numSymFlag true (isAsciiDigit c) false ds
 
-theorem numberTail_cont : ∀ (ds rest : Text), (∀ x ∈ ds, contChar x = true) → Delim rest →
-    numberTail (ds ++ rest) = (ds, rest, ds.any (fun x => !isSubsequentNumber x)) := by
+/-- a sufficient condition that does not mention the scanner state: some character is neither a
+subsequent-number character nor a sign -/
+theorem numSymFlag_of_any (ds : Text) :
+    ∀ (m d k : Bool), ds.any (fun x => !isSubsequentNumber x && x != '+' && x != '-') = true →
+      numSymFlag m d k ds = true := by
+  induction ds with
+  | nil => intro m d k h; simp at h
+  | cons x xs ih =>
+    intro m d k h
+    simp only [List.any_cons, Bool.or_eq_true] at h
+    simp only [numSymFlag, Bool.or_eq_true]
+    rcases h with h | h
+    · left
+      simp only [Bool.and_eq_true, Bool.not_eq_true', bne_iff_ne, ne_eq] at h
+      obtain ⟨⟨h1, h2⟩, h3⟩ := h
+      have e : (x == '+' || x == '-') = false := by simp [h2, h3]
+      simp [h1, e]
+    · right; exact ih _ _ _ h
+
+/-- before the first exponent marker nothing is a sign position: a sign as the first subsequent
+character (`1+`, `-+5`, `+-`) makes the token a symbol -/
+theorem numSymFlag_sign_first (m d : Bool) (x : Char) (xs : Text) (hx : x = '+' ∨ x = '-') :
+    numSymFlag m d false (x :: xs) = true := by
+  have h1 : isSubsequentNumber '+' = false := by decide
+  have h2 : isSubsequentNumber '-' = false := by decide
+  rcases hx with rfl | rfl <;> simp [numSymFlag, h1, h2]
+
+theorem numberTail_cont : ∀ (ds rest : Text) (m d k : Bool), (∀ x ∈ ds, contChar x = true) → Delim rest →
+    numberTail m d k (ds ++ rest) = (ds, rest, numSymFlag m d k ds) := by
   intro ds
   induction ds with
   | nil =>
-    intro rest _ hd
-    have := numberTail_delim [] rest (by simp) hd
-    simpa using this
-  | cons d ds ih =>
-    intro rest h hd
-    have hdc : contChar d = true := h d (by simp)
-    have ih' := ih rest (fun x hx => h x (by simp [hx])) hd
-    simp only [List.cons_append, numberTail]
-    by_cases hn : isSubsequentNumber d = true
-    · simp only [hn, if_true, ih', List.any_cons, Bool.not_true, Bool.false_or]
-    · have hn' : isSubsequentNumber d = false := by simpa using hn
-      have hid : (isSubsequentIdentifier d && d != ';') = true := by
-        simpa [contChar, hn'] using hdc
-      simp only [hn', Bool.false_eq_true, if_false, hid, if_true, ih', List.any_cons, Bool.not_false, Bool.true_or]
+    intro rest m d k _ hd
+    have := numberTail_delim [] rest m d k (by simp) hd
+    simpa [numSymFlag] using this
+  | cons x ds ih =>
+    intro rest m d k h hd
+    have hdc : contChar x = true := h x (by simp)
+    have ih' := fun m d k => ih rest m d k (fun y hy => h y (by simp [hy])) hd
+    simp only [List.cons_append, numberTail, numSymFlag]
+    by_cases hn : (isSubsequentNumber x || (k && (x == '+' || x == '-'))) = true
+    · simp only [hn, if_true, ih']
+      rcases Bool.or_eq_true _ _ |>.mp hn with h1 | h1
+      · simp [h1]
+      · simp [h1]
+    · have hn' : (isSubsequentNumber x || (k && (x == '+' || x == '-'))) = false := by simpa using hn
+      have hn1 : isSubsequentNumber x = false := by
+        cases hh : isSubsequentNumber x <;> simp [hh] at hn' ⊢
+      have hn2 : (k && (x == '+' || x == '-')) = false := by
+        cases hh : (k && (x == '+' || x == '-')) <;> simp [hh, hn1] at hn' ⊢
+      have hid : (isSubsequentIdentifier x && x != ';') = true := by
+        simpa [contChar, hn1] using hdc
+      simp [hid, ih', hn1, hn2]
 
 theorem digit_numStart {c : Char} (h : isAsciiDigit c = true) : NumStart c := by
   simp only [isAsciiDigit, Bool.and_eq_true, decide_eq_true_eq] at h
@@ -432,7 +478,7 @@ theorem scansAs_numSym {s : Text} (h : numSymShape s = true) (rest : Text) (hd :
     obtain ⟨h1, h2, h3, h4, h5, h6, h7, h8, h9, h10⟩ := hs
     simp only [scanPiece, h1, h2, h3, h4, h5, h6, h7, h8, beq_iff_eq, Bool.false_eq_true, if_false]
     simp only [scanOther, h9, h10, Bool.false_eq_true, if_false, if_true]
-    rw [numberTail_cont ds rest hall hd]
+    rw [numberTail_cont ds rest _ _ _ hall hd]
     simp only [hany, if_true]
 
 end Marwood
